@@ -536,14 +536,21 @@ class An(ResultQuantifier[T]):
         self._node_.wrap_subtree = True
 
     def evaluate(self) -> Iterable[TypingUnion[T, Dict[TypingUnion[T, SymbolicExpression[T]], T]]]:
+        results = self._evaluate__()
         completed = False
         try:
-            with symbolic_mode(mode=None):
-                results = self._evaluate__()
-                assert not in_symbolic_mode()
-                yield from map(self._process_result_, results)
+            while True:
+                # Symbolic mode is switched off only while this query is computing its next result, so that the
+                # mode of the caller is never changed while the iterator is suspended, abandoned or finalized.
+                with symbolic_mode(mode=None):
+                    try:
+                        result = self._process_result_(next(results))
+                    except StopIteration:
+                        break
+                yield result
             completed = True
         finally:
+            results.close()
             self._reset_after_evaluation_(completed)
 
     def _evaluate__(self, sources: Optional[Dict[int, HashedValue]] = None, yield_when_false: bool = False) -> Iterable[T]:
